@@ -12,10 +12,9 @@ use vhdl_lang::{EntRef, Message};
 impl VHDLServer {
     pub fn workspace_did_change_watched_files(&mut self, params: &DidChangeWatchedFilesParams) {
         if let Some(config_file) = &self.config_file {
-            let config_file_has_changed = params
-                .changes
-                .iter()
-                .any(|change| uri_to_file_name(&change.uri).as_path() == config_file);
+            let config_file_has_changed = params.changes.iter().any(|change| {
+                uri_to_file_name(&change.uri).as_deref() == Some(config_file.as_path())
+            });
             if config_file_has_changed {
                 self.message(Message::log(
                     "Configuration file has changed, reloading project...",
